@@ -13,7 +13,7 @@ sys.path.insert(0, os.path.join(VERIF, "lib"))
 sys.path.insert(0, VERIF)
 
 # checks whose machinery exists but is not finished / reviewed yet are not claimed
-UNFINISHED = {"C09", "C10"}
+UNFINISHED = set()
 
 # Every checks/cNN.py that defines MANIFEST = {"level","technique","text","note","ref"} is claimed.
 CLAIMED = {}
